@@ -109,6 +109,8 @@ def generate(cases, codec, envkey='env'):
     o.pop('r', None)
     if o['st'] == 'exc':
         o['phase'] = 'generate' if 'spec' in box else 'compile'
+        if not o.get('site'):
+            o['site'] = 'phase:' + o['phase']
         o['msg'] = re.sub(r'C\d+x', '', o['msg'])
     o['asn1'] = text
     if o['st'] == 'ok':
@@ -529,10 +531,25 @@ def process_accept(ctx, cases):
                                  'csrc': excerpt(source, diags)})
             cleanup(ctx, cdir)
             return
-        errlines = [d for d in diags if 'error' in d] + cerrs
-        culprits = attribute(errlines, texts)
-        bad = [c for c in cases if c['bi'] in culprits]
         cleanup(ctx, cdir)
+        # which cases do not compile on their own?  (gcc syntax check of each case's own module)
+        bad = []
+        for c in cases:
+            g1, _, h1, s1 = generate([c], codec)
+            if g1['st'] != 'ok':
+                bad.append(c)
+                continue
+            ctx.nbuild += 1
+            d1 = os.path.join(ctx.work, 'p%d' % ctx.nbuild)
+            os.makedirs(d1, exist_ok=True)
+            with open(os.path.join(d1, 'gen.h'), 'w') as f:
+                f.write(h1)
+            with open(os.path.join(d1, 'gen.c'), 'w') as f:
+                f.write(s1)
+            rc1, _ = cdriver.gcc_check(d1, 'gen.c')
+            shutil.rmtree(d1, ignore_errors=True)
+            if rc1 != 0:
+                bad.append(c)
         if not bad or len(bad) == len(cases):
             half = len(cases) // 2
             process_accept(ctx, cases[:half])
